@@ -25,7 +25,7 @@ md = ['# Seeded property-breaking changes: what the registered checks report', '
       'Produced by `tools/mutall.sh` (each patch applied to a scratch clone of /repo, never to /repo) and',
       '`tools/mkresults.py`. Every patch compiles and passes the 266 existing tests; its `demo_test.go`',
       'fails with the patch and passes without (recorded by the sub-agent that wrote it, in meta.json).', '',
-      '| change | own property | detected by | first failed obligation (replay file name) |', '|---|---|---|---|']
+      '| change | own property | demonstration confirmed on current tree | detected by | first failed obligation (replay file name) |', '|---|---|---|---|---|']
 det = 0
 for mid, runs in rows:
     own = mid[:3]
@@ -33,8 +33,13 @@ for mid, runs in rows:
     first = next((r['first_failed_obligation'] for r in runs if r.get('violations', 0) > 0), '')
     if by:
         det += 1
-    md.append('| %s | %s | %s | %s |' % (mid, own, ', '.join(by) if by else '**none**', first[:110].replace('|', '/')))
     mp = '/verif/seeded/%s/meta.json' % mid
+    conf = '?'
+    if os.path.exists(mp):
+        cm = json.load(open(mp)).get('confirmed')
+        if cm:
+            conf = 'yes' if cm.get('ok') else 'no (see note)'
+    md.append('| %s | %s | %s | %s | %s |' % (mid, own, conf, ', '.join(by) if by else '**none**', first[:110].replace('|', '/')))
     if os.path.exists(mp):
         meta = json.load(open(mp))
         meta['checked'] = {
@@ -48,6 +53,7 @@ md += ['', '%d of %d changes are reported by at least one registered check.' % (
        '* C01_B, C16_A: completeness of the sliding-window slice scan (fillShardInfos, rolling CRC) is not under contract (C16 not applicable).',
        '* C06_A, C06_B: order/layout independence of readFile / LoadParityData is a relational property (C06 not applicable); the changed code still satisfies every single-call contract (no panic, well-formed result or error).',
        '* C18_A: an early `return nil, nil` in par2 Decoder.Repair when all slices are in place; the contract says what a WriteFile must satisfy and that success is reported only after the writes that happened, not that every file whose flags are bad is written (needs a per-file ghost set; see DESIGN §9).',
-       '* C05_A, C17_A are not caught by the C05/C17 checks themselves but by C12/C07 (the partition obligations), which is where the defect lives.']
+       '* C05_A, C17_A are not caught by the C05/C17 checks themselves but by C12/C07 (the partition obligations), which is where the defect lives.', '',
+       'Demonstration not reproducible on the current tree (C13_A, C15_B, C19_B): these three changes were written before the `fix:` commits; the fixes D5/D11 now catch downstream what the change lets through, so their demonstration tests pass with the change applied (tools/confirm_seeded.sh). The checks still report the broken function-level contract (see the note in each meta.json); for C19_B the property is still broken for other inputs, for C13_A and C15_B the report is about a contract that another function now backs up -- the modular rule at work, not a failing input.']
 open('/verif/seeded/RESULTS.md', 'w').write('\n'.join(md) + '\n')
 print('\n'.join(md[-12:]))
